@@ -3,6 +3,7 @@ package c07
 
 import (
 	"bytes"
+	"encoding/base64"
 	"encoding/json"
 	"fmt"
 	"reflect"
@@ -188,6 +189,10 @@ func Run(r *core.Run) {
 			mut("missing-suffix-data", v, func(m M) { delete(m, "suffixData") })
 			mut("recovery-commitment-not-multihash", v, func(m M) { m["suffixData"].(M)["recoveryCommitment"] = "abc" })
 			mut("recovery-commitment-sha3", v, func(m M) { m["suffixData"].(M)["recoveryCommitment"] = "FiB" + strings.Repeat("A", 43) })
+			mut("recovery-commitment-bytes-appended", v, func(m M) {
+				m["suffixData"].(M)["recoveryCommitment"] = appended(m["suffixData"].(M)["recoveryCommitment"])
+			})
+			mut("delta-hash-bytes-appended", v, func(m M) { m["suffixData"].(M)["deltaHash"] = appended(m["suffixData"].(M)["deltaHash"]) })
 			mut("delta-hash-missing", v, func(m M) { delete(m["suffixData"].(M), "deltaHash") })
 			mut("delta-hash-of-other-delta", v, func(m M) { m["suffixData"].(M)["deltaHash"] = ops.HashOf(M{"x": 1}, 18) })
 			mut("update-equals-recovery-commitment", v, func(m M) {
@@ -263,8 +268,15 @@ func Run(r *core.Run) {
 		})
 		mut("update-commitment-not-multihash", v, func(m M) { m["delta"].(M)["updateCommitment"] = "abc"; rebind(m) })
 		mut("update-commitment-missing", v, func(m M) { delete(m["delta"].(M), "updateCommitment"); rebind(m) })
+		// a well-formed multihash of a configured algorithm with four more bytes behind the digest is not a multihash
+		mut("update-commitment-bytes-appended", v, func(m M) {
+			m["delta"].(M)["updateCommitment"] = appended(m["delta"].(M)["updateCommitment"])
+			rebind(m)
+		})
 		if typ != "create" {
 			mut("signed-delta-hash-not-multihash", v, func(m M) { resign(m, k, nil, func(p M) { p["deltaHash"] = "abc" }) })
+			mut("signed-delta-hash-bytes-appended", v, func(m M) { resign(m, k, nil, func(p M) { p["deltaHash"] = appended(p["deltaHash"]) }) })
+			mut("reveal-value-bytes-appended", v, func(m M) { m["revealValue"] = appended(m["revealValue"]) })
 			mut("update-commitment-of-signing-key", v, func(m M) { m["delta"].(M)["updateCommitment"] = ops.Commitment(k, 18); rebind(m) })
 			mut("update-commitment-of-signing-key-sha512", v, func(m M) { m["delta"].(M)["updateCommitment"] = ops.Commitment(k, 19); rebind(m) })
 		}
@@ -272,6 +284,9 @@ func Run(r *core.Run) {
 			mut("recovery-commitment-of-signing-key", v, func(m M) { resign(m, k, nil, func(p M) { p["recoveryCommitment"] = ops.Commitment(k, 18) }) })
 			mut("recovery-commitment-of-signing-key-sha512", v, func(m M) { resign(m, k, nil, func(p M) { p["recoveryCommitment"] = ops.Commitment(k, 19) }) })
 			mut("recovery-commitment-not-multihash", v, func(m M) { resign(m, k, nil, func(p M) { p["recoveryCommitment"] = "abc" }) })
+			mut("recovery-commitment-bytes-appended", v, func(m M) {
+				resign(m, k, nil, func(p M) { p["recoveryCommitment"] = appended(p["recoveryCommitment"]) })
+			})
 			mut("update-equals-recovery-commitment", v, func(m M) {
 				resign(m, k, nil, func(p M) { p["recoveryCommitment"] = m["delta"].(M)["updateCommitment"] })
 			})
@@ -491,4 +506,14 @@ func collectHashes(m M, f func(string)) {
 			}
 		}
 	}
+}
+
+// appended returns the multihash text with four bytes appended behind the digest (not a multihash any more).
+func appended(h any) string {
+	s, _ := h.(string)
+	raw, err := base64.RawURLEncoding.DecodeString(s)
+	if err != nil || len(raw) == 0 {
+		core.Engine("appended: %q is not a multihash text", s)
+	}
+	return base64.RawURLEncoding.EncodeToString(append(raw, 0xde, 0xad, 0xbe, 0xef))
 }
